@@ -11,24 +11,24 @@ CONSTANTS
   PolicyRoutesInFlows = FALSE
   GetReloads = FALSE
   DoctorFromDisk = FALSE
-  RestoreSkipped = TRUE
+  RestoreSkipped = FALSE
   DevMC = "both"
   RecordHistory = FALSE
   Sampled = FALSE
   MaxHist = 0
-  TagsA = {"v1", "junk"}
-  TagsB = {"none", "v1"}
-  TagsC = {"none"}
-  TagsQ = {"none"}
-  TagsG = {"none"}
-  PayA = {"none", "v2", "bad"}
-  PayB = {"none", "dup"}
-  PayQ = {"none"}
-  PayG = {"none", "gbad"}
-  WithGate = TRUE
+  TagsA = {"none", "v1", "v2", "junk", "rep", "bad"}
+  TagsB = {"none", "v1", "rep", "bad", "dup", "lim"}
+  TagsC = {"none", "v1", "junk"}
+  TagsQ = {"none", "q1", "q2", "qbad"}
+  TagsG = {"none", "g1", "gbad"}
+  PayA = {}
+  PayB = {}
+  PayQ = {}
+  PayG = {}
+  WithGate = FALSE
   WithFault = TRUE
-  WrongVerbs = FALSE
-  StateFiles = {}
+  WrongVerbs = TRUE
+  StateFiles = {"discover"}
   PolTagsMC = {}
   BodyTagsMC = {}
 SPECIFICATION SpecMC
